@@ -38,6 +38,9 @@ type ItemSpec struct {
 	DT     uint8  `json:"dt,omitempty"`
 	Seq    uint64 `json:"seq,omitempty"` // 0 = next
 	Sys    uint32 `json:"sys,omitempty"`
+	// SnapExtra > 0 (on the first item of an appended batch): the snapshot is announced wider than what exists yet,
+	// [first, last+SnapExtra] - the rest of it arrives later (possibly after a re-open, under a marker of its own)
+	SnapExtra int `json:"snap_extra,omitempty"`
 }
 
 type Step struct {
@@ -730,6 +733,13 @@ func RunSession(spec *SessSpec) *Trace {
 			var its []cbsim.Item
 			for _, is := range st.Items {
 				its = append(its, toItem(is))
+			}
+			if len(st.Items) > 0 && st.Items[0].SnapExtra > 0 {
+				first := env.Sim.High(uint16(st.VB)) + 1
+				last := first + uint64(len(its)) - 1
+				for k := range its {
+					its[k].SnapS, its[k].SnapE = first, last+uint64(st.Items[0].SnapExtra)
+				}
 			}
 			env.Sim.Append(uint16(st.VB), its)
 		case "ack":
